@@ -99,3 +99,9 @@ class ChanMapForC13(c08.ChanMapMode):
 
 def modes(tier):
     return [LeakMode(), HubMode("C13"), ChanMapForC13(), RelayMode("C13"), LagMode("C13"), RelayMainMode("C13", 2)]
+
+# the hub's event loop as translated from the current source (Relay/Tie/Hub.lean)
+from tiecommon import TIE_HUB, TIE_HUB_NOTE, TIE_HUB_ASSUMPTION
+THEOREMS = THEOREMS + TIE_HUB
+RULE = TIE_HUB_NOTE + RULE
+ASSUMPTIONS = ASSUMPTIONS + [TIE_HUB_ASSUMPTION]
